@@ -1601,6 +1601,9 @@ class Gen:
             return True
         if a == ("mcall", ("var", "e"), "current_contract_address", []) and "current_contract_address" not in getattr(self, "reads", {}):
             return True
+        if a[0] == "path" and len(a[1]) == 2 and getattr(self, "key_params", None) and a[1][1] in (getattr(self, "store", None) or {}) \
+                and a[1][1] in self.key_params.values():
+            return True     # a storage key handed to a function whose key parameters are resolved statically
         return a[0] == "call" and a[1][0] == "path" and a[1][1][-1] == "new" and all(self.strip(x) in (("var", "e"), ("var", "_e")) for x in a[2])
 
     def call_fn(self, ns, name, recv, args, env, k, ret):
@@ -2441,6 +2444,11 @@ STUBS_VST = {
         "def VaultSt.Client_transfer_from (envr : VaultSt.Reads) (st : VaultSt.Store) (spender : Nat) (from_ : Nat) (to_ : Nat) (amount : Int) : Comp (Unit × VaultSt.Store) :=\n"
         f" match OZ.Fungible.transferFrom {_AST} st.Asset envr.asset_auth spender from_ to_ amount with\n | .ok a => Comp.ok ((), {{ st with Asset := a }})\n | .error _ => Comp.panic\n"),
 }
+STORE_OWN = {"Ownable": {"PendingOwner": ([], "Address", "temp"), "Owner": ([], "Address")}}
+READS_OWN = {"Ownable": {"ledger_sequence": "u32", "min_temp_ttl": "u32", "max_ttl": "u32", "authorized": "addr2bool"}}
+FILES_OWN = [("Ownable", "packages/access/src/role_transfer/storage.rs", ["transfer_role", "accept_transfer"]),
+             ("Ownable", "packages/access/src/ownable/storage.rs",
+              ["get_owner", "enforce_owner_auth", "transfer_ownership", "accept_ownership", "renounce_ownership"])]
 STORE_RT = {"RoleTransfer": {"Pending": ([], "Address", "temp"), "Active": ([], "Address")}}
 READS_RT = {"RoleTransfer": {"ledger_sequence": "u32", "min_temp_ttl": "u32", "max_ttl": "u32", "authorized": "addr2bool"}}
 FILES_RT = [("RoleTransfer", "packages/access/src/role_transfer/storage.rs", ["transfer_role", "accept_transfer"])]
@@ -3043,6 +3051,10 @@ def main():
             txt = translate(repo, FILES_ISS, reads=READS_ISS, store=STORE_ISS)
         elif "--topics" in sys.argv:
             txt = translate(repo, FILES_CTI, reads={"Topics": {}}, store=STORE_CTI)
+        elif "--ownable" in sys.argv:
+            txt = translate(repo, FILES_OWN, imports=("OZ.Model.RustSemHost",), reads=READS_OWN, store=STORE_OWN,
+                            tymaps={"packages/access/src/role_transfer/storage.rs": {"T": "Key!", "U": "Key!"}},
+                            key_params={"pending_key": "PendingOwner", "active_key": "Owner"})
         elif "--role-transfer" in sys.argv:
             txt = translate(repo, FILES_RT, imports=("OZ.Model.RustSemHost",), reads=READS_RT, store=STORE_RT,
                             tymaps={"packages/access/src/role_transfer/storage.rs": {"T": "Key!", "U": "Key!"}},
